@@ -22,6 +22,7 @@ UOpsT   == {}
 NoExtra == [base |-> FALSE]
 BaseExtra == [base |-> TRUE]
 LockExtra == [base |-> FALSE, fam |-> "lockdisc"]
+MiscOps == {Misc(<<>>, FALSE)}
 
 \* ---------------- pool A: competition / backtracking / abandoned captures
 PatsA == {"/u/{id}", "/u/{id:\\d+}", "/u/{id:digit}", "/u/5", "/u/{id}/x", "/u/{id}/{p:\\d+}",
